@@ -6,6 +6,7 @@ SPEC = os.path.join(VERIF, "spec")
 HARNESS = os.path.join(VERIF, "harness")
 VH = os.path.join(HARNESS, "target", "release", "vh")
 NCPU = os.cpu_count() or 4
+TLA_CP = "/opt/veriftools/tla/tla2tools.jar:/opt/veriftools/tla/CommunityModules-deps.jar"
 
 
 class ToolError(Exception):
@@ -38,16 +39,19 @@ def tlc(module, cfg, workdir, env=None, workers=None, timeout=600, trace_mode=Fa
     meta = os.path.join(workdir, "tlc_" + module + "_" + os.path.splitext(os.path.basename(cfg))[0])
     shutil.rmtree(meta, ignore_errors=True)
     e = dict(os.environ)
-    jopts = "-Xss1g -Xmx%s" % xmx
+    # java is invoked directly: -Xss on the command line also sizes the main thread's stack
+    # (constant-level ASSUMEs are evaluated there); JAVA_TOOL_OPTIONS would not.
+    jargs = ["-Xss1g", "-Xmx%s" % xmx, "-XX:+UseParallelGC"]
     if trace_mode:
-        jopts += " -Dtlc2.tool.queue.IStateQueue=StateDeque"
+        jargs.append("-Dtlc2.tool.queue.IStateQueue=StateDeque")
         workers = 1
-    e["JAVA_TOOL_OPTIONS"] = jopts
+    e.pop("JAVA_TOOL_OPTIONS", None)
     if env:
         e.update({k: str(v) for k, v in env.items()})
     if workers is None:
         workers = min(8, NCPU)
-    cmd = ["timeout", str(timeout), "tlc", "-workers", str(workers), "-metadir", meta, "-cleanup", "-noGenerateSpecTE"]
+    cmd = ["timeout", str(timeout), "java"] + jargs + ["-cp", TLA_CP, "tlc2.TLC", "-workers", str(workers), "-metadir", meta,
+           "-cleanup", "-noGenerateSpecTE"]
     if coverage:
         cmd += ["-coverage", "1"]
     if simulate:
@@ -161,6 +165,9 @@ class Check:
                 self.cov["samples"].append(s)
         self.cov["harness_runs"].append({"args": rep["args"], "stats": rep["stats"], "wall_s": rep["wall_s"]})
         for v in rep["viols"]:
+            # a replay shared between properties reports each finding under the property it belongs to
+            if not v["key"].startswith(self.pid + "/"):
+                continue
             self.violation(v["key"], v.get("case"), v.get("detail"), rep["violcounts"].get(v["key"], 1))
 
     def violation(self, key, case=None, detail=None, n=1):
